@@ -414,7 +414,25 @@ def exec_block(folder, stmts, env, module, cls=None, budget=None):
         if isinstance(st, ast.Expr):
             if isinstance(st.value, ast.Constant):
                 continue
-            ev(st.value)
+            try:
+                ev(st.value)
+            except NotConst:
+                # a call for effect on something outside the evaluated state
+                # (a module-level logger, say) whose arguments hand over no
+                # mutable local cannot change what is being folded
+                v = st.value
+                if not isinstance(v, ast.Call):
+                    raise
+                root = v.func
+                while isinstance(root, (ast.Attribute, ast.Subscript)):
+                    root = root.value
+                if not isinstance(root, ast.Name) or root.id in env:
+                    raise
+                for a in list(v.args) + [k.value for k in v.keywords]:
+                    for n in ast.walk(a):
+                        if isinstance(n, ast.Name) and isinstance(
+                                env.get(n.id), (list, dict, set, ObjEnv)):
+                            raise
         elif isinstance(st, ast.Assign):
             v = ev(st.value)
             for t in st.targets:
